@@ -156,6 +156,15 @@ func (g *Gen) resolveAt(h *ssa.BasicBlock, name string) *Val {
 	for _, b := range g.fn.Blocks {
 		dom := b.Dominates(h) && b != h
 		for i, ins := range b.Instrs {
+			// a phi of the variable in a dominating block (the header of an enclosing loop) is its current value there:
+			// without this, a variable initialised by a constant and updated in an enclosing loop resolved to the constant
+			if phi, ok := ins.(*ssa.Phi); ok && dom && phi.Comment == name {
+				if _, known := g.vals[phi]; known {
+					if key := 1000000 + b.Index*10000 + i; key > bestKey {
+						best, bestAddr, bestKey = phi, false, key
+					}
+				}
+			}
 			if ref, ok := ins.(*ssa.DebugRef); ok {
 				if dom {
 					consider(ref, 1000000+b.Index*10000+i)
